@@ -139,10 +139,6 @@ Section Reference.
        lerpv w (g_solimp a) (g_solimp b),
        g_adhesion a + g_adhesion b).
 
-  (* what MJWarp does instead for the solref of a pair whose priorities differ *)
-  Definition mjw_priority_solref (hi lo : geomp) : list S :=
-    if (s0 <? vget (g_solref hi) 0) && (s0 <? vget (g_solref lo) 0)
-    then g_solref hi else minv (g_solref hi) (g_solref lo).
 End Reference.
 
 (* ---- 3. reading one geom out of the batched arrays ---------------------------------- *)
